@@ -78,6 +78,7 @@ struct Pass {
     bool refused2 = false;   // the parser refused its own output
     bool fix = true;         // X1 == X2 (up to sibling order)
     bool fixBytes = true;
+    bool pass3 = false;      // the difference appeared between the second and the third serialization
     QByteArray x1, x2;
     Fragment f1;
     QDomElement e1;          // the element of X1 handed to the second pass
@@ -100,6 +101,23 @@ bool secondPass(const CodecEntry &c, Pass &p, const QDomElement &e, const QStrin
     }
     auto f2 = parseFragment(x2, ns);
     p.fix = f2.wf && canon(p.f1.root, false, true) == canon(f2.root, false, true);
+    if (p.fix && f2.n >= 1) {
+        // X1 and X2 are equal only up to attribute/sibling order: what is parsed in the next pass is not
+        // the same text any more, so the drift may start one pass later.  Third pass: X2 -> parse -> X3 = X2.
+        // (If X1 = X2 bytewise the parser is deterministic and X3 = X2 follows.)
+        QByteArray x3;
+        const auto e2 = (e == p.f1.root || f2.n != 1) ? f2.root : f2.single();
+        if (c.run(e2, x3) && x3 != x2) {
+            auto f3 = parseFragment(x3, ns);
+            if (!f3.wf || canon(f2.root, false, true) != canon(f3.root, false, true)) {
+                p.fix = false;
+                p.pass3 = true;
+                p.x1 = x2;   // reported pair: the second and the third serialization
+                p.f1 = f2;
+                p.x2 = x3;
+            }
+        }
+    }
     return p.fix;
 }
 
@@ -548,6 +566,24 @@ bool applyStep(QDomDocument &doc, QDomElement &root, QDomElement &anchor, const 
         } else {
             parent.insertBefore(sib, cur);
         }
+        return true;
+    }
+    if (op == "DuplicateWithOtherChild") {
+        // a copy of `cur` (its own attributes, none of its children) holding one child of another kind its
+        // parser knows, with the attributes that kind has at its first occurrence in the corpus
+        auto parent = cur.parentNode();
+        if (parent.isNull() || cur == root) {
+            return false;
+        }
+        auto copy = cur.cloneNode(false).toElement();
+        const auto ns = st["ns"].toString();
+        auto child = ns.isEmpty() ? doc.createElement(st["name"].toString()) : doc.createElementNS(ns, st["name"].toString());
+        const auto attrs = st["attrs"].toObject();
+        for (auto it = attrs.begin(); it != attrs.end(); ++it) {
+            child.setAttribute(it.key(), it.value().toString());
+        }
+        copy.appendChild(child);
+        parent.insertAfter(copy, cur);
         return true;
     }
     if (op == "MoveText") {
@@ -1187,8 +1223,12 @@ QXV_DRIVER(codec)
                         add({ { "op", "MoveText" }, { "p", p } });
                     }
                 }
-                if (second) {
+                // Renamespace: at every element that has element children (a container that keeps its valid content
+                // but leaves the namespace its parser expects), otherwise second-line
+                if (second || !childElements(e).isEmpty()) {
                     add({ { "op", "Renamespace" }, { "p", p } });
+                }
+                if (second) {
                     add({ { "op", "Nest" }, { "p", p }, { "d", 1 } }, QStringLiteral("*3"));
                 }
                 if (heavy) {
